@@ -1,6 +1,7 @@
 import OrbitModel.Generated.Gen
 import OrbitModel.Model.Status
 import OrbitModel.Model.Index
+import OrbitModel.Model.Codec
 /-!
 # The regenerated Go fragments equal the hand-written model (tie 2)
 
@@ -38,4 +39,16 @@ theorem gen_batchSize : Gen.batchSize = 1 := rfl
 theorem gen_referenceCount : Gen.referenceCount = 64 := rfl
 theorem gen_maxFrame : Gen.delimitedReadMaxSize = 4 * 1024 * 1024 := by decide
 
+end Orbit
+
+namespace Orbit
+/-- the size check regenerated from `directchannel.handleNewPeer` is the model's guard -/
+theorem gen_frameRefused (len64 : BitVec 64) :
+    Gen.genFrameRefused len64 = (Codec.frameGuard len64 == .refused) := by
+  have hmax : Gen.delimitedReadMaxSize = Codec.maxFrame := by decide
+  unfold Gen.genFrameRefused Codec.frameGuard
+  rw [hmax]
+  by_cases h : (len64.toNat : Int) > Codec.maxFrame
+  · rw [if_pos h]; simp [h]
+  · rw [if_neg h]; simp [h]
 end Orbit
